@@ -14,10 +14,14 @@ VERIF = S.VERIF
 
 
 def main(argv):
+    base, tag = "/tmp/seeded", ""
+    if argv[0].startswith("/"):
+        base, tag = argv[0], argv[1]
+        argv = argv[2:]
     prop = argv[0]
     extra = argv[1:]
-    for x in sorted(os.listdir("/tmp/seeded/%s" % prop)):
-        sd = "/tmp/seeded/%s/%s" % (prop, x)
+    for x in sorted(os.listdir("%s/%s" % (base, prop))):
+        sd = "%s/%s/%s" % (base, prop, x)
         if not os.path.isfile(os.path.join(sd, "patch.diff")):
             continue
         v = S.verify(sd)
@@ -25,7 +29,7 @@ def main(argv):
         props = [prop] + [p for p in extra if p != prop]
         res = S.run_checks(sd, props) if v["ok"] else {}
         caught = [p for p in props if res.get(p, {}).get("rc") == 1]
-        name = "%s-%s" % (prop, x)
+        name = "%s-%s%s" % (prop, tag, x)
         print("%s verified=%s caught_by=%s" % (name, v["ok"], caught or "-"))
         for p in props:
             if p in res:
